@@ -9,6 +9,7 @@ import (
 	"saomc/world"
 
 	didtypes "github.com/SaoNetwork/sao/x/did/types"
+	didkeeper "github.com/SaoNetwork/sao/x/did/keeper"
 	modeltypes "github.com/SaoNetwork/sao/x/model/types"
 	nodetypes "github.com/SaoNetwork/sao/x/node/types"
 	ordertypes "github.com/SaoNetwork/sao/x/order/types"
@@ -130,8 +131,11 @@ func (nullGhost) Bytes() []byte       { return nil }
 func (AuthOracle) InitGhost(*world.World, sdk.Context) engine.Ghost { return nullGhost{} }
 
 func (o AuthOracle) Step(si *engine.StepInfo) []engine.Finding {
-	if si.Post == nil || si.Op.Meta == nil {
+	if si.Post == nil {
 		return nil
+	}
+	if si.Op.Meta == nil {
+		si.Op.Meta = map[string]string{}
 	}
 	var paid []engine.Finding
 	if did := si.Op.Meta["signer_did"]; o.Prop == "C10" && did != "" {
@@ -143,6 +147,15 @@ func (o AuthOracle) Step(si *engine.StepInfo) []engine.Finding {
 		for _, f := range si.Res.Flows {
 			if isModule(f.To) == ordertypes.ModuleName && isModule(f.From) == "" && f.From != want {
 				paid = append(paid, fd("C10", "charged-without-own-request", si.Op.Kind, fmt.Sprintf("%s: the request is signed by %s, but %s is charged %s", si.Op.Label, si.W.NameOf(want), si.W.NameOf(f.From), f.Amt)))
+			}
+		}
+	}
+	// an accepted owner-signed permission update leaves the model with exactly the lists the owner signed
+	if pm, ok := si.Op.Msg.(*saotypes.MsgUpdataPermission); ok && o.Prop == "C09" && si.Op.Meta["adv"] == "" && si.Res.OK {
+		post := snapOf(si.W, si.PostCtx, si.Post)
+		if m, ok := post.Metas[pm.Proposal.DataId]; ok {
+			if fmt.Sprint(m.ReadwriteDids) != fmt.Sprint(pm.Proposal.ReadwriteDids) || fmt.Sprint(m.ReadonlyDids) != fmt.Sprint(pm.Proposal.ReadonlyDids) {
+				paid = append(paid, fd("C09", "permissions-differ-from-signed-request", "", fmt.Sprintf("%s: the owner signed rw=%d ro=%d DIDs, the model now has rw=%d ro=%d", si.Op.Label, len(pm.Proposal.ReadwriteDids), len(pm.Proposal.ReadonlyDids), len(m.ReadwriteDids), len(m.ReadonlyDids))))
 			}
 		}
 	}
@@ -253,7 +266,23 @@ func c09Adversarial(w *world.World, ctx sdk.Context, data string) []engine.Op {
 		idx  int
 		role string
 	}
-	signers := []signer{{world.Q, "ro"}, {world.X, "stranger"}, {world.W, "rw"}}
+	// roles follow the model's current lists (the owner may have re-arranged them); that the lists are what the owner
+	// signed is checked separately (permissions-differ-from-signed-request)
+	roleOf := func(i int) string {
+		did := w.A(i).Did
+		for _, d := range meta.ReadwriteDids {
+			if d == did {
+				return "rw"
+			}
+		}
+		for _, d := range meta.ReadonlyDids {
+			if d == did {
+				return "ro"
+			}
+		}
+		return "stranger"
+	}
+	signers := []signer{{world.Q, roleOf(world.Q)}, {world.X, "stranger"}, {world.W, roleOf(world.W)}}
 	mk := func(kind, variant, label string, m sdk.Msg) {
 		out = append(out, advOp("adv-"+kind, fmt.Sprintf("adv-%s(%s,%s)", kind, data[:2], label), m, map[string]string{"data": data, "variant": kind + ":" + variant}))
 	}
@@ -287,7 +316,7 @@ func c09Adversarial(w *world.World, ctx sdk.Context, data string) []engine.Op {
 			}
 			// owner-only requests: renew and permission update (also denied to the rw grantee)
 			mk("renew", "own-proposal", tag, RenewMsg(w, sg.idx, rl.creator, rl.gateway, 3600, 100, data))
-			if sg.role == "stranger" {
+			if sg.idx == world.X {
 				// a multi-model renewal that mixes the signer's own model with the victim's, in both orders
 				own := "33333333-3333-3333-3333-333333333333"
 				mk("renew", "own-model-first", tag+",own-first", RenewMsg(w, sg.idx, rl.creator, rl.gateway, 3600, 100, own, data))
@@ -366,7 +395,10 @@ func c09Authorised(w *world.World, ctx sdk.Context) []engine.Op {
 			Tx("auth-update-rw", "auth-update(11,rw-grantee)", StoreMsg(w, StoreP{Signer: world.W, Relayer: world.G, Gateway: world.G, DataId: world.Data1, CommitId: meta.Commit + "|" + commitName(next), Size: 1000, Replica: 1, Duration: 3600, Timeout: 100, Cid: world.Cid2, Alias: meta.Alias})),
 			Tx("auth-renew-owner", "auth-renew(11,owner)", RenewMsg(w, world.O, world.G, world.G, 3600, 100, world.Data1)),
 			Tx("auth-terminate-rw", "auth-terminate(11,rw-grantee)", TerminateMsg(w, world.W, world.G, world.G, world.Data1)),
-			Tx("auth-permission-owner", "auth-permission(11,owner,rw=none)", PermissionMsg(w, world.O, world.G, world.G, world.Data1, []string{w.A(world.Q).Did}, nil)))
+			Tx("auth-permission-owner", "auth-permission(11,owner,rw=none)", PermissionMsg(w, world.O, world.G, world.G, world.Data1, []string{w.A(world.Q).Did}, nil)),
+			Tx("auth-permission-owner", "auth-permission(11,owner,rw downgraded to ro)", PermissionMsg(w, world.O, world.G, world.G, world.Data1, []string{w.A(world.W).Did}, nil)),
+			Tx("auth-permission-owner", "auth-permission(11,owner,all revoked)", PermissionMsg(w, world.O, world.G, world.G, world.Data1, nil, nil)),
+			Tx("auth-permission-owner", "auth-permission(11,owner,swapped)", PermissionMsg(w, world.O, world.G, world.G, world.Data1, []string{w.A(world.W).Did}, []string{w.A(world.Q).Did})))
 	}
 	if _, ok := a.ModelKeeper.GetMetadata(ctx, world.Data2); ok {
 		tp := saotypes.TerminateProposal{Owner: sidVictim.Did, DataId: world.Data2}
@@ -406,6 +438,8 @@ func C09Scenario(tier string) *engine.Scenario {
 // ---------------------------------------------------------------------------------------------
 // C10: actor authorization. Adversary M = actor X with its own registered node.
 
+var sidC10 = world.NewSid("CS", "sid-c10-owner", uint64(world.BlockTime(1).Unix()))
+
 func c10Setup(w *world.World) []engine.SetupStep {
 	st := SetupBase(w, []int{world.O, world.X, world.P, world.Q}, []int{world.G, world.X}, []int{world.S1, world.S2}, 10_000_000)
 	// G registers a hot key (account W) for itself; owner-paid stores by W on behalf of G are legitimate
@@ -415,6 +449,9 @@ func c10Setup(w *world.World) []engine.SetupStep {
 		fixed(Tx("store", "store(11)", StoreMsg(w, StoreP{Signer: world.O, Relayer: world.G, Gateway: world.G, DataId: world.Data1, CommitId: world.Data1, Size: 1000, Replica: 1, Duration: 3600, Timeout: 100}))),
 		CompleteNth(1, 0),
 		fixed(Tx("store", "store(22)", StoreMsg(w, StoreP{Signer: world.O, Relayer: world.G, Gateway: world.G, DataId: world.Data2, CommitId: world.Data2, Size: 1000, Replica: 1, Duration: 3600, Timeout: 100}))),
+		// a did:sid owner with two bound accounts: T (first binding, hence its payment address) and V2
+		fixed(Tx("bind", "bind(C10 sid,T)", world.BindingMsg(sidC10, w.A(world.T), w.A(world.T), world.CosmosProof(w.A(world.T), sidC10.Did, "bind "+sidC10.Did, sidC10.Ts)))),
+		fixed(Tx("bind", "bind(C10 sid,V2,by T)", world.BindingMsg(sidC10, w.A(world.V2), w.A(world.T), world.CosmosProof(w.A(world.V2), sidC10.Did, "bind "+sidC10.Did, sidC10.Ts)))),
 		// Q is a collaborator with read-write access to D1 (it may update the content at its own expense)
 		fixed(Tx("permission", "permission(11,rw=Q)", PermissionMsg(w, world.O, world.G, world.G, world.Data1, nil, []string{w.A(world.Q).Did}))))
 	return st
@@ -490,6 +527,38 @@ func c10Ops(w *world.World, ctx sdk.Context) []engine.Op {
 			out = append(out, Tx("auth-store-hotkey", "auth-store(33,creator=W,provider=G)", mk(world.W, world.G)))
 			sp.Relayer = world.P
 			out = append(out, Tx("auth-store-sponsor", "auth-store(33,pay=P,creator=P)", StoreMsg(w, sp)))
+		}
+	}
+	// a did:sid owner: requests it signed may be submitted by its own bound accounts (the order then stays pending);
+	// an account dropped from the DID by a key rotation is a third party again
+	if l, ok := a.DidKeeper.GetAccountList(ctx, sidC10.Did); ok {
+		v2 := w.A(world.V2)
+		listed := false
+		var rm []string
+		var keep []*didtypes.AccountAuth
+		for _, ad := range l.AccountDids {
+			if id, ok := a.DidKeeper.GetAccountId(ctx, ad); ok && id.AccountId == v2.AccountId() {
+				listed = true
+				rm = append(rm, ad)
+			} else {
+				keep = append(keep, &didtypes.AccountAuth{AccountDid: ad, AccountEncryptedSeed: "s2", SidEncryptedAccount: "e2"})
+			}
+		}
+		d4 := "44444444-4444-4444-4444-444444444444"
+		if _, exists := a.ModelKeeper.GetMetadata(ctx, d4); !exists {
+			p := saotypes.Proposal{Owner: sidC10.Did, Provider: w.A(world.G).S(), GroupId: "g", Duration: 3600, Replica: 1, Timeout: 100, Alias: "alias-44", DataId: d4, CommitId: d4, Cid: world.Cid, Size_: 1000, Operation: 1}
+			m := &saotypes.MsgStore{Creator: v2.S(), Provider: w.A(world.G).S(), Proposal: p, JwsSignature: world.SignKid(sidC10.KeyPriv, sidC10.Kid(sidC10.DocId), &p)}
+			if listed {
+				out = append(out, Tx("auth-store-bound-account", "auth-store(44,signed=sid,creator=V2 bound)", m))
+			} else {
+				out = append(out, advOp("adv-store", "adv-store(44,signed=sid,creator=V2 dropped from the DID)", m, map[string]string{"adversary": v2.S(), "variant": "store:submitted-by-account-dropped-from-owner-did"}))
+			}
+		}
+		if listed {
+			now := uint64(ctx.BlockTime().Unix())
+			newKeys := []*didtypes.PubKey{{Name: "k1", Value: sidC10.Keys[0].Value}, {Name: "k2", Value: sidAttacker.Keys[0].Value}}
+			newDoc, _ := didkeeper.CalculateDocId(newKeys, now)
+			out = append(out, Tx("rotate", "rotate(C10 sid,drop V2)", &didtypes.MsgUpdate{Creator: w.A(world.T).S(), Did: sidC10.Did, NewDocId: newDoc, Keys: newKeys, Timestamp: now, UpdateAccountAuth: keep, RemoveAccountDid: rm, PastSeed: "seed-c10"}))
 		}
 	}
 	// renewals: the renewal order is charged to a payment address; who signed and who submitted?
